@@ -7,6 +7,15 @@ ids = [p['id'] for p in props]
 
 # id -> (technique, level text, level note, design ref)
 CLAIMS = {
+ 'C08': ("bounded exhaustive enumeration of hcldec spec trees x conforming and singly-perturbed bodies on the real decoder, checking type conformance against ImpliedType and the value against a reference decoder",
+         "Every spec tree of depth <= 2 over all 18 spec kinds (depth 3 over a reduced alphabet; 4 363 specs) within the documented preconditions, x every conforming body over {absent, 2 values} per attribute and 0..3 blocks per type and every body within one edit (remove / replace a value by each of 8 pool values incl. null, unknown, dynamic and wrong types; extra attribute or block; remove or duplicate a block; add or drop a label; at any depth): Decode and PartialDecode never panic, the result type conforms to ImpliedType (equal where the implied type has no dynamic part), and an error-free result equals the reference decoder's value; ImpliedSchema / Variables / SourceRange never panic.",
+         "The reference decoder (ref/refdec) is written from the hcldec documentation and never calls hcldec. Five recorded finding classes (three root causes pinned by the repository's own TestDecode cases 33, 37, 44).",
+         "DESIGN.md section 4 C08"),
+ 'C18': ("bounded exhaustive enumeration of bodies mixing static and dynamic blocks x for_each collections x decoding specs, differential between dynblock expansion and a reference write-out of the blocks",
+         "Three product families (iteration: 16 for_each collections of every iterable kind and size 0-2 incl. marked, unknown, dynamic, null x 4 iterator flavours incl. shadowing x 7 content forms x 4 label forms; interleaving: all layouts <= 3 of static and dynamic blocks; nesting: 6 shapes with inner blocks using outer iterators) x 8 decoding specs x native and JSON source: Decode(Expand(body)) must equal Decode(of the body written out with one static block per element in iteration order), unknown for_each must give a value of the implied type with only the affected part unknown, and expansion under the context pruned to the reported variables must give the same result.",
+         "Mark propagation is compared after unmarking (C06's subject). The write-out (ref/refdec/refdyn.go) never calls dynblock.",
+         "DESIGN.md section 4 C18"),
+
  'C02': ("bounded exhaustive enumeration of abstract body trees x renderings with <= 1 (thorough 2) layout deviations on the real structural parser, compared with the tree that was written",
          "Seven families of abstract body trees (attribute-only bodies over 6 names x 8 value kinds, every block form x every label sequence <= 2 over a 24-label alphabet covering every escape and template-looking text, all item sequences <= 3/2 over 14 representative items, all tree shapes <= 5 items, comment-text and duplicate-attribute families), each rendered canonically and with every single deviation (indentation, blank lines, each comment form in every slot, header gaps, CRLF, missing final newline, BOM): ParseConfig must report no errors and expose exactly the written attributes, block types, label strings, nesting and order, through the hclsyntax.Body fields, Body.Content with the derived schema, and JustAttributes; every rendering of a body that defines an attribute twice must be rejected.",
          "BOM acceptance and the content of a heredoc under CRLF are Unspecified. Byte positions of ranges belong to C14.",
